@@ -59,10 +59,15 @@ def r1(F, R):
     ff = bool_param_upvar(F, ex)
     conds = {}
     recv_local = None
+    # conditions *on the completion message*: guards evaluated after the message was received (inside the drain loop);
+    # whatever guards the drain loop as a whole is loop structure and is covered by `completions-are-examined` below
+    recv_sites = [s for s, t in ex.calls(lambda t: callee_is(t, r"UnboundedReceiver.*::try_next$", r"try_recv$"))]
     for g in A.guards_of(ex, s_b):
         d = g.cond_def()
         if d and d[0] == "discr":
             continue  # the `while let Ok(Some(msg))` destructuring
+        if recv_sites and not getattr(g, "derived", False) and not any(ex.dominates(rs_, Site(ex, g.bb, "T")) for rs_ in recv_sites):
+            continue
         src = guard_source(F, ex, g)
         pol = g.polarity()
         if src[0] == "upvar" and src[1] == ff:
@@ -75,6 +80,15 @@ def r1(F, R):
     want = {"fail_fast": True, "msg.3": True, "msg.4": False}
     R.check(conds == want, "trip-condition", s_b, "Break ⇐ fail_fast ∧ failed ∧ ¬retried",
             f"fail-fast trips under {conds}; expected exactly {want} (a retried failure must not trip it, a final one must)")
+    # after an in-flight completion was awaited, the drain loop is entered before the next scheduling round
+    infl = [aw for aw in A.awaits(ex) if re.search(r"FuturesUnordered<", aw.fut_type)]
+    aw_get0, get0 = role_get(F)
+    okx = len(infl) == 1 and len(recv_sites) == 1
+    if okx:
+        ready = Site(ex, infl[0].ready_bb, 0)
+        okx = ex.site_reaches(ready, recv_sites[0]) and not ex.site_reaches(ready, aw_get0.poll_site, stop=[recv_sites[0]])
+    R.check(okx, "completions-are-examined", recv_sites[0] if recv_sites else ex, "every completion is followed by the message drain loop",
+            "after a completion the scheduler can start the next round without examining the completion messages (fail-fast would not trip)")
     # the message comes from the finished channel (try_next)
     if recv_local is not None:
         sd = ex.single_def(recv_local)
@@ -105,19 +119,20 @@ def r1(F, R):
         R.violation("producer/message-shape", s_send, "completion message is not a 5-tuple built from the notification's parameters")
     # bracket bookkeeping receives component 4
     n = 0
-    for s, t in ex.calls():
+    for nb in F.nested(ex):
+      for s, t in nb.calls():
         cb = F.callee_body(t)
         if cb is None or not cb.impl or cb.impl.get("self_adt") != "runner::basic::FinishedRulesAndFeatures":
             continue
-        bools = [i for i, a in enumerate(t["args"]) if op_local(a) is not None and ex.locals[op_local(a)] == "bool"]
+        bools = [i for i, a in enumerate(t["args"]) if op_local(a) is not None and nb.locals[op_local(a)] == "bool"]
         for i in bools:
-            cp = A.canon_place(ex, {"l": op_local(t["args"][i]), "p": []})
+            _b, cp = A.canon_place_deep(F, nb, {"l": op_local(t["args"][i]), "p": []})
             fs = place_fields(cp)
             n += 1
             R.check(bool(fs) and fs[-1] == ("{tuple}", "4"), f"brackets-get-retried/{cb.short.rsplit('::', 1)[-1]}", s, "is_retried = message.4",
                     f"{cb.short} receives {place_str(cp)} as is_retried instead of component 4")
     R.check(n == 2, "brackets-get-retried/sites", ex, "", f"{n} bracket bookkeeping calls with a bool argument")
-    R.floor(7)
+    R.floor(8)
 
 
 def r2(F, R):
@@ -166,13 +181,9 @@ def r3(F, R):
     calls = [(s, t) for s, t in ex.calls() if F.callee_body(t) is get_fn]
     s_get, t_get = calls[0]
     # GET arg = S.continue_value().unwrap_or(Some(0))
-    l = op_local(t_get["args"][1])
-    sd = ex.single_def(l) if l is not None else None
-    ok = False
-    if sd and sd[1] == "call" and callee_is(sd[2], r"Option::<.*>::unwrap_or$"):
-        ok = A.upper_bound(F, ex, sd[2]["args"][1]) == 0
-        rsl = A.slice_back(ex, [sd[2]["args"][0]])
-        ok = ok and rsl.has_call(r"ControlFlow::<.*>::continue_value$") and S in rsl.locals
+    from .c06 import slot_limit_cases
+    cases = slot_limit_cases(F, ex, t_get["args"][1], S)
+    ok = cases.get("Break") == ("ub", 0) and cases.get("Continue") == "payload"
     R.check(ok, "zero-slots-after-trip", s_get, "GET(slots.continue_value().unwrap_or(Some(0)))", "after the trip GET is not called with Some(0)")
     # IS_FINISHED receives is_break(S)
     aw_fin, fin = role_is_finished(F)
